@@ -28,8 +28,16 @@ def sig(case, idx, verdict):
     return f"model:{op[0]}"
 
 
+def sig_sys(case, idx, verdict):
+    op = case["ops"][idx][0].split()
+    w = verdict.split()
+    if verdict.startswith("FAIL oracle"):
+        return "oracle:" + ":".join(w[2:5]) + ":" + op[0]
+    return f"model:sysreload:{op[0]}"
+
+
 def check(ctx):
-    vlib.prove(ctx, ["KrillModel.Props.C06"], extra_targets=("kagg",))
+    vlib.prove(ctx, ["KrillModel.Props.C06"], extra_targets=("kagg", "kmodel"))
     found = False
     private_kmodel(ctx)
     if vlib.build_harness(ctx, ["aggstore"]):
@@ -41,13 +49,29 @@ def check(ctx):
                                               extra_args=["--real"], corpus="aggstore-real")
     else:
         ctx.failed_obligations.append("harness-build")
+    # krill's real aggregates (CertAuth, TA proxy and signer) inside a whole in-process krill: system
+    # stream op `reloadcheck [snap]` = live state vs fresh store object (latest snapshot + later
+    # commands) vs replay of the stored commands alone; `history` = listed vs stored commands
+    with vlib.Lock("lake"):
+        shutil.copy2(vlib.LEAN / ".lake/build/bin/kmodel", ctx.work / "kmodel")
+    vlib.KMODEL = ctx.work / "kmodel"
+    if vlib.build_harness(ctx, ["system"]):
+        args = ["rp=0", "profile=reload", "obs=min"]
+        traces = vlib.corpus_traces(ctx, "system", corpus="system-c06", extra_args=args)
+        n, length = (12, 18) if ctx.tier == "quick" else (240, 30)
+        traces += vlib.parallel_traces(ctx, "system", n, length, extra_args=args)
+        found |= vlib.judge_traces(ctx, "system", "sysreload", traces, sig_sys)
+    else:
+        ctx.failed_obligations.append("harness-build")
     # a known finding is not a failing input for a broken obligation
     vlib.obligations_broken(ctx, bool(ctx.violations))
     ctx.assumptions += [
         "the aggregate is abstract in the theorems (init/process/apply/pre-save listener); the stream instantiates it with a "
         "test aggregate implementing krill's public Aggregate / WalSupport traits; the real RepositoryAccess aggregate gets the same "
-        "fresh-store / from-scratch comparison here (--real); CertAuth, TA proxy/signer and RepositoryContent need a whole KrillRuntime "
-        "as command context and are left to the system stream",
+        "fresh-store / from-scratch comparison here (--real); CertAuth and the TA proxy/signer get it inside a whole in-process krill "
+        "(system stream op reloadcheck, driver sysreload: live vs snapshot+later commands vs commands alone, serde JSON of the whole "
+        "aggregate minus the two wall-clock fields last_key_change / since; history listing vs stored commands); RepositoryContent "
+        "(WAL) is compared by the pubd stream of C10/C11 across restarts",
         "initVersion <= 1 (1 for CertAuth, RepositoryAccess, TA proxy/signer; 0 for SignerInfo)",
         "drop_aggregate / WalStore::remove / WalStore::add clear only the calling store object's cache (modelled); histories use them "
         "only when no other long-lived store object caches the entity, as krill does",
@@ -85,8 +109,8 @@ MANIFEST = {
             "(replay_total); no call panics if process only emits applicable events (no_panic_of_applicable); WAL store: fresh load = "
             "live value (wal_replay_eq_live) with the needed side condition proved necessary by a witness. Tie: lock-step differential "
             "execution of the model against the real stores on both back-ends + the theorem predicates evaluated on the implementation's trace.",
-    "note": "Theorems are about the model with an abstract aggregate; the correspondence uses a test aggregate (public traits), not CertAuth "
-            "itself (left to the system stream). Multi-store-object quirks (drop/remove/add clear one cache only, WAL truncate strands older "
+    "note": "Theorems are about the model with an abstract aggregate; the lock-step correspondence uses a test aggregate (public traits) and "
+            "RepositoryAccess; CertAuth and the TA aggregates are tied by the reloadcheck comparison on system-stream histories (seeded + corpus). Multi-store-object quirks (drop/remove/add clear one cache only, WAL truncate strands older "
             "caches) are modelled and excluded by hypothesis where krill's usage excludes them.",
     "technique": "Lean 4 proof (refinement invariant, induction over histories) + correspondence check",
 }
